@@ -109,6 +109,9 @@ def run(ctx):
         raise MachineryError('spec sharpness lost: ParseSqlMC does not exhibit the internal-error leak')
     ctx.cov['design_runs'] = slycheck.toy_design(ctx, 5 if thorough else 4)
     ctx.cov['toy_binding'] = slycheck.toy_traces(ctx, 4)
+    # clause-order automaton (ClauseOrder.tla): design theorem + every clause list through the real parsers
+    from . import clauseorder
+    n_clause = clauseorder.run(ctx, 5 if thorough else 4)
 
     # --- conformance half
     from .corpus import pmap
@@ -158,7 +161,7 @@ def run(ctx):
                                                                'call_events': res['call']['events'][-12:]})
         if dv is None:
             ctx.cov['drift'] = ctx.cov.get('drift', 0) + 1
-    ctx.cov['traces_validated_against_impl'] += sum(1 for v in dverd if v is not None) + sum(1 for v in cverd if v is not None)
+    ctx.cov['traces_validated_against_impl'] += sum(1 for v in dverd if v is not None) + sum(1 for v in cverd if v is not None) + n_clause
     ctx.cov['evaluations'] = len(cases)
     ctx.cov['final_outcomes'] = outcomes
     kinds = {}
